@@ -70,6 +70,7 @@ type attackSession struct {
 	Pol      simkit.Policy
 	EntC     uint64
 	EntS     uint64
+	DynOn    bool // dynamic record sizing left enabled (many small records per Write)
 }
 
 func drawAttackSession(c *simkit.Choice, small bool) attackSession {
@@ -110,7 +111,7 @@ func drawAttackSession(c *simkit.Choice, small bool) attackSession {
 				case 1:
 					n = c.Range(1, 5000, simkit.LScen)
 				case 2:
-					n = []int{16384, 16383, 1, 2}[c.Choose(4, simkit.LScen)]
+					n = []int{16384, 16383, 1, 2, 16385, 40000}[c.Choose(6, simkit.LScen)]
 				default:
 					n = c.Range(0, 16384, simkit.LScen)
 				}
@@ -121,6 +122,7 @@ func drawAttackSession(c *simkit.Choice, small bool) attackSession {
 		a.Payload[d] = drawData(c, total)
 	}
 	if !small {
+		a.DynOn = c.Bool(1, 3, simkit.LScen)
 		for i := 0; i < 2; i++ {
 			a.NetA[i] = simkit.DrawNetCfg(c)
 			a.NetB[i] = simkit.DrawNetCfg(c)
@@ -143,6 +145,16 @@ func drawRecFault(c *simkit.Choice, a *attackSession) recFault {
 	f.Dir = c.Choose(2, simkit.LFault)
 	// records: Finished, then >= one per write, then close_notify
 	maxRec := len(a.Writes[f.Dir]) + 2
+	for _, w := range a.Writes[f.Dir] {
+		if a.DynOn {
+			maxRec += w / 1200
+		} else {
+			maxRec += w / 16384
+		}
+	}
+	if maxRec > 40 {
+		maxRec = 40
+	}
 	if a.Suite == gmtls.GMTLS_ECC_SM4_CBC_SM3 || (a.TLSVers != 0 && a.TLSVers <= gmtls.VersionTLS10) {
 		maxRec += len(a.Writes[f.Dir]) // 1/n-1 split
 	}
@@ -411,7 +423,7 @@ func attackCfg(a *attackSession, s *simkit.Sim, server bool, end *attackEnd) *gm
 	if server {
 		ent = a.EntS
 	}
-	cfg := &gmtls.Config{Rand: simkit.NewStream(ent), Time: simTime(s, 0), KeyLogWriter: &end.KeyLog, DynamicRecordSizingDisabled: true, SessionTicketsDisabled: true}
+	cfg := &gmtls.Config{Rand: simkit.NewStream(ent), Time: simTime(s, 0), KeyLogWriter: &end.KeyLog, DynamicRecordSizingDisabled: !a.DynOn, SessionTicketsDisabled: true}
 	if a.Suite != 0 {
 		cfg.GMSupport = gmtls.NewGMSupport()
 		cfg.CipherSuites = []uint16{a.Suite}
@@ -643,12 +655,12 @@ func runAttack(c *simkit.Choice, r *simkit.Rec, a *attackSession, f *recFault, s
 		kl := reftls.ParseKeyLog(append(append([]byte(nil), ce.KeyLog.Bytes()...), se.KeyLog.Bytes()...))
 		sess, err := reftls.Decode(cliRaw.WrPipe().Captured(), srvRaw.WrPipe().Captured(), reftls.DecodeOpts{KeyLog: kl, EncD: pki.D("srv-enc"), Tolerant: true})
 		if err != nil || !sess.Complete {
-			r.Violate("wire", site, fmt.Sprintf("independent decode of what the endpoints sent failed: %v", err))
+			r.Violate("wire", suiteName, fmt.Sprintf("independent decode of what the endpoints sent failed: %v", err))
 			return
 		}
 		for d := 0; d < 2; d++ {
 			if err := sess.AuditNonces(d); err != nil {
-				r.Violate("nonce-audit", site, err.Error())
+				r.Violate("nonce-audit", suiteName, err.Error())
 				return
 			}
 		}
